@@ -196,3 +196,35 @@ func VerifOffsetFetchPartitions(r *OffsetFetchRequest) map[string][]int32 {
 	}
 	return out
 }
+
+// VerifNewBroker builds a Broker value with an id (for coordinator answers).
+func VerifNewBroker(id int32, addr string) *Broker { return &Broker{id: id, addr: addr} }
+
+type VerifPOMState struct {
+	Topic     string
+	Partition int32
+	Offset    int64
+	Metadata  string
+	Dirty     bool
+	Done      bool
+}
+
+// VerifOffsetManagerState dumps the complete state of an offset manager (for canonical state keys).
+// It takes no locks on purpose: it is called by the controller at quiescent points, when a sarama
+// goroutine may be blocked on the network while holding brokerLock.
+func VerifOffsetManagerState(m OffsetManager) (poms []VerifPOMState, hasBroker bool) {
+	om := m.(*offsetManager)
+	for _, tm := range om.poms {
+		for _, p := range tm {
+			poms = append(poms, VerifPOMState{p.topic, p.partition, p.offset, p.metadata, p.dirty, p.done})
+		}
+	}
+	sort.Slice(poms, func(i, j int) bool {
+		if poms[i].Topic != poms[j].Topic {
+			return poms[i].Topic < poms[j].Topic
+		}
+		return poms[i].Partition < poms[j].Partition
+	})
+	hasBroker = om.broker != nil
+	return
+}
